@@ -136,6 +136,49 @@ def _replace_node(tree, i, pick):
     return None
 
 
+def splice(src, tree, tree2):
+    """text of the file with only the changed top-level expression replaced (comments, formatting and line numbers of everything else stay, which
+    matters: shape comments and docstrings are part of what the checks read)"""
+    a, b = list(ast.walk(tree)), list(ast.walk(tree2))
+    # statement-level expressions (direct expression children of statements) of both trees, in the same order as long as the shapes agree
+    def top_exprs(t):
+        out = []
+        for st in ast.walk(t):
+            if isinstance(st, ast.stmt):
+                for f, v in ast.iter_fields(st):
+                    vs = v if isinstance(v, list) else [v]
+                    for x in vs:
+                        if isinstance(x, ast.expr):
+                            out.append(x)
+                        elif isinstance(x, ast.keyword):
+                            out.append(x.value)
+        return out
+    ea, eb = top_exprs(tree), top_exprs(tree2)
+    if len(ea) != len(eb):
+        return None
+    lines = src.split('\n')
+    offs = [0]
+    for ln in lines:
+        offs.append(offs[-1] + len(ln.encode()) + 1)
+    data = src.encode()
+    for x, y in zip(ea, eb):
+        if ast.dump(x) != ast.dump(y):
+            if not hasattr(x, 'end_lineno'):
+                return None
+            start = offs[x.lineno - 1] + x.col_offset
+            end = offs[x.end_lineno - 1] + x.end_col_offset
+            try:
+                text = ast.unparse(y)
+            except Exception:
+                return None
+            if isinstance(x.ctx if hasattr(x, 'ctx') else None, ast.Store):
+                new = text
+            else:
+                new = '(' + text + ')'
+            return (data[:start] + new.encode() + data[end:]).decode()
+    return None
+
+
 def line_mutant(src, tree2, lineno):
     """apply the mutant to the text of its statement only (keeps the rest of the file byte-identical)"""
     try:
@@ -198,8 +241,10 @@ def main():
             op, line, desc, t2 = mt
             if t2 is None or (ops and op not in ops):
                 continue
+            new_src = splice(src, tree, t2)
+            if new_src is None or new_src == src:
+                continue
             try:
-                new_src = ast.unparse(t2)
                 ast.parse(new_src)
             except Exception:
                 continue
